@@ -30,7 +30,7 @@ func init() {
 		Shards:   shards(8, 16),
 		Timeout:  timeouts(5*time.Minute, 30*time.Minute),
 		MinEvals: 1000,
-		Required: []string{"path:fit", "path:fit-exact", "path:over-by-1", "path:truncated", "path:clamped", "path:rejected", "path:cancelled", "long_lived_channel_writes"},
+		Required: []string{"path:fit", "path:fit-exact", "path:over-by-1", "path:truncated", "path:clamped", "path:rejected", "path:cancelled", "long_lived_channel_writes", "overlong_string_messages"},
 		Run:      runC02,
 	})
 }
@@ -90,6 +90,12 @@ func runC02(w *mon.W) {
 			gg = g
 		}
 		fc := gg.Fcall(kind)
+		if w.Rng.Intn(150) == 0 {
+			// a string too long for its 2-byte length field: not representable, but the
+			// frame bound must hold for it like for any other message
+			checkOverlongC02(w, g, fixedM)
+			continue
+		}
 		ref, err := refcodec.Frame(fc)
 		if err != nil {
 			continue
@@ -241,5 +247,55 @@ func checkWriteC02(w *mon.W, ch p9p.Channel, conn *wire.Script, fc *p9p.Fcall, r
 	}
 	if dataOrig != nil && !bytes.Equal(dataOrig, dataCopy) {
 		w.Violate("mismatch", sig("caller-buffer-modified"), "the caller's Twrite data was modified; "+ctxs, nil)
+	}
+}
+
+// checkOverlongC02 writes a message carrying a string of 65536..70000 bytes. No
+// reference encoding exists for it; what is judged is the frame bound alone: whatever
+// reaches the conn is exactly one frame of at most msize, and a message whose real size
+// exceeds msize emits nothing and returns an error.
+func checkOverlongC02(w *mon.W, g *gen.G, fixedM []int) {
+	n := 65536 + w.Rng.Intn(4465)
+	long := g.StrN(n)
+	var m p9p.Message
+	var L int
+	switch w.Rng.Intn(5) {
+	case 0:
+		m, L = p9p.MessageRerror{Ename: long}, 4+3+2+n
+	case 1:
+		m, L = p9p.MessageTversion{MSize: 8192, Version: long}, 4+3+4+2+n
+	case 2:
+		m, L = p9p.MessageTattach{Fid: 1, Afid: p9p.NOFID, Uname: "u", Aname: long}, 4+3+4+4+2+1+2+n
+	case 3:
+		m, L = p9p.MessageTcreate{Fid: 1, Name: long, Perm: 0644, Mode: 1}, 4+3+4+2+n+4+1
+	default:
+		m, L = p9p.MessageTwalk{Fid: 1, Newfid: 2, Wnames: []string{"a", long}}, 4+3+4+4+2+2+1+2+n
+	}
+	M := []int{65536, 65535, 1 << 20, L - 1, L, L + 1, L - 40, 66000, 4096}[w.Rng.Intn(9)]
+	M = clipM(M)
+	conn := &wire.Script{}
+	ch := p9p.NewChannel(conn, M)
+	fc := &p9p.Fcall{Type: m.Type(), Tag: 7, Message: m}
+	w.Eval()
+	w.Count("overlong_string_messages", 1)
+	w.CaseQuiet(fmt.Sprintf("WriteFcall %s with a %d-byte string (real frame size %d) msize=%d", fc.Type, n, L, M))
+	err := ch.WriteFcall(context.Background(), fc)
+	got := conn.Written()
+	w.NT(fmt.Sprintf("overlong/%s/%d", fc.Type, L-M))
+	if len(got) > 0 {
+		if len(got) < 4 || int(uint32(got[0])|uint32(got[1])<<8|uint32(got[2])<<16|uint32(got[3])<<24) != len(got) {
+			w.Violate("mismatch", "C02:not-one-frame:overlong-string", fmt.Sprintf("a %s with a %d-byte string emitted %d bytes that are not one length-prefixed frame (msize %d)", fc.Type, n, len(got), M), nil)
+		}
+		if len(got) > M {
+			w.Violate("mismatch", "C02:frame-exceeds-msize:overlong-string", fmt.Sprintf("a %s with a %d-byte string emitted a %d-byte frame with msize %d (err=%v)", fc.Type, n, len(got), M, err), nil)
+		}
+		if err != nil {
+			w.Violate("mismatch", "C02:emitted-with-error:overlong-string", fmt.Sprintf("a %s with a %d-byte string emitted %d bytes and returned %v", fc.Type, n, len(got), err), nil)
+		}
+	} else if err == nil {
+		w.Violate("mismatch", "C02:nothing-and-no-error:overlong-string", fmt.Sprintf("a %s with a %d-byte string emitted nothing and returned no error (msize %d)", fc.Type, n, M), nil)
+	}
+	if L > M && len(got) > 0 {
+		w.Violate("mismatch", "C02:oversize-emitted:overlong-string", fmt.Sprintf("a %s whose real frame size is %d was written with msize %d (%d bytes emitted)", fc.Type, L, M, len(got)), nil)
 	}
 }
